@@ -427,6 +427,129 @@ func runC16(p *core.Prog, r *core.Report) {
 				okRetry = true
 			}
 		})
+		// no silent success: once Recv failed with something else than io.EOF, every Result returned before the next Recv
+		// carries an error that cannot be nil (the receive error itself, a constructed error, or ctx.Err() where it was tested)
+		var recv *ssa.Call
+		core.Instrs(wf, func(in ssa.Instruction) {
+			if c, ok := in.(*ssa.Call); ok && c.Call.IsInvoke() && c.Call.Method.Name() == "Recv" {
+				recv = c
+			}
+		})
+		if recv == nil {
+			core.Undecide("RemoteWorker.work: no Recv call")
+		}
+		var rerr ssa.Value
+		for _, ref := range *recv.Referrers() {
+			if ex, ok := ref.(*ssa.Extract); ok && ex.Index == 1 {
+				rerr = ex
+			}
+		}
+		var nonEOF []core.Edge
+		var ctxErrEdges []core.Edge
+		core.Instrs(wf, func(in ssa.Instruction) {
+			ifi, ok := in.(*ssa.If)
+			if !ok {
+				return
+			}
+			c, neg := core.StripNot(ifi.Cond)
+			bo, ok := c.(*ssa.BinOp)
+			if !ok || (bo.Op != token.EQL && bo.Op != token.NEQ) {
+				return
+			}
+			eqIdx := 0
+			if (bo.Op == token.NEQ) != neg {
+				eqIdx = 1
+			}
+			isEOF := func(v ssa.Value) bool {
+				u, ok := v.(*ssa.UnOp)
+				if !ok {
+					return false
+				}
+				g, ok := u.X.(*ssa.Global)
+				return ok && g.Name() == "EOF"
+			}
+			if (bo.X == rerr && isEOF(bo.Y)) || (bo.Y == rerr && isEOF(bo.X)) {
+				nonEOF = append(nonEOF, core.Edge{From: ifi.Block(), Idx: 1 - eqIdx})
+			}
+			isCtxErr := func(v ssa.Value) bool {
+				cc, ok := v.(*ssa.Call)
+				return ok && cc.Call.IsInvoke() && cc.Call.Method.Name() == "Err"
+			}
+			isNil := func(v ssa.Value) bool { k, ok := v.(*ssa.Const); return ok && k.IsNil() }
+			if (isCtxErr(bo.X) && isNil(bo.Y)) || (isCtxErr(bo.Y) && isNil(bo.X)) {
+				ctxErrEdges = append(ctxErrEdges, core.Edge{From: ifi.Block(), Idx: 1 - eqIdx})
+			}
+		})
+		okLoud := len(nonEOF) == 1 && rerr != nil
+		badRes := ""
+		if okLoud {
+			start := nonEOF[0].From.Succs[nonEOF[0].Idx]
+			region := map[*ssa.BasicBlock]bool{}
+			stk := []*ssa.BasicBlock{start}
+			for len(stk) > 0 {
+				b := stk[len(stk)-1]
+				stk = stk[:len(stk)-1]
+				if region[b] || b == recv.Block() {
+					continue
+				}
+				region[b] = true
+				stk = append(stk, b.Succs...)
+			}
+			nAl := 0
+			for b := range region {
+				for _, x := range b.Instrs {
+					al, ok := x.(*ssa.Alloc)
+					if !ok {
+						continue
+					}
+					pt, ok := al.Type().(*types.Pointer)
+					if !ok {
+						continue
+					}
+					if n, ok := pt.Elem().(*types.Named); !ok || n.Obj() != resT.Obj() {
+						continue
+					}
+					nAl++
+					vals := core.LiteralFields(al)["Error"]
+					if len(vals) == 0 {
+						badRes = "a Result without Error at " + p.Pos(al.Pos())
+						continue
+					}
+					for _, v := range vals {
+						for {
+							if mi, ok := v.(*ssa.MakeInterface); ok {
+								v = mi.X
+								continue
+							}
+							if ci, ok := v.(*ssa.ChangeInterface); ok {
+								v = ci.X
+								continue
+							}
+							break
+						}
+						switch x := v.(type) {
+						case *ssa.Extract:
+							if ssa.Value(x) != rerr {
+								badRes = "Result.Error from another value at " + p.Pos(al.Pos())
+							}
+						case *ssa.Call:
+							if x.Call.IsInvoke() && x.Call.Method.Name() == "Err" {
+								q := core.PathQuery{Fn: wf, CutEdge: func(e core.Edge) bool { return containsEdge(ctxErrEdges, e) }}
+								if _, reach := q.CanReach(start.Instrs[0], func(y ssa.Instruction) bool { return y == ssa.Instruction(al) }); reach || len(ctxErrEdges) == 0 {
+									badRes = "Result.Error = ctx.Err() where ctx.Err() was not tested non-nil, at " + p.Pos(al.Pos())
+								}
+							} else if cl := core.CommonCallee(x.Common()); cl == nil || !(cl == nre || cl.Name() == "Errorf" || cl.Name() == "New" || cl.Name() == "NewFatalError") {
+								badRes = "Result.Error from an unclassified call at " + p.Pos(al.Pos())
+							}
+						default:
+							badRes = "Result.Error is not provably non-nil at " + p.Pos(al.Pos())
+						}
+					}
+				}
+			}
+			okLoud = nAl >= 3 && badRes == ""
+		}
+		r.Check(okLoud, "C16.R2", "RemoteWorker.work/failed-recv-never-succeeds", "after a receive error other than io.EOF every Result returned carries a non-nil error (the error itself, a constructed error, or ctx.Err() only where it was tested non-nil): a dropped stream is never reported as a finished job", badRes, p.Pos(wf.Pos()))
 		r.Check(okFinal, "C16.R2", "RemoteWorker.work/invalid-argument-final", "an InvalidArgument status from tier 2 (deterministic failure) is returned as is, not retried", "InvalidArgument branch wraps the error as retryable or is missing", p.Pos(wf.Pos()))
 		r.Check(okRetry, "C16.R2", "RemoteWorker.work/others-retryable", "every other receive error is wrapped in a RetryableErr", "fallback branch does not build a RetryableErr", p.Pos(wf.Pos()))
 		// the retry loop recognises retryable errors by their exact dynamic type (type switch): a RetryableErr must therefore
